@@ -31,6 +31,11 @@ def _exprs():
 
 
 EXPRS = {e[0]: e for e in _exprs()}
+# expressions that only make sense in particular positions (used in hand-placed cases, not in the alphabets):
+# `Self::` naming an earlier variant of the enum itself, and casts whose target type is inferred from the discriminant's expected type
+EXPRS_X = {"selfplus": ("selfplus", lambda t: "Self::V0 as %s + 4" % t, lambda t: 4), "asinfer": ("asinfer", lambda t: "K16 as _", lambda t: 9),
+           "leninfer": ("leninfer", lambda t: "\"abc\".len() as _", lambda t: 3), "selfneg": ("selfneg", lambda t: "-(Self::V0 as %s) - 2" % t, lambda t: -2 if t[0] == "i" else None)}
+ALLX = dict(EXPRS, **EXPRS_X)
 
 PRELUDE = r'''
 pub fn check_all<E, T: Copy + PartialEq + ::core::fmt::Debug>(
@@ -84,7 +89,7 @@ def model(kinds, t):
     prev = None
     for k in kinds:
         if ":" in k:
-            v = EXPRS[k.split(":")[1]][2](t)
+            v = ALLX[k.split(":")[1]][2](t)
             if v is None:
                 return None
         else:
@@ -117,7 +122,7 @@ def gen_case(cid, kinds, repr_key, gen_key, names=None):
         name = names[i] if names else "V%d" % i
         d = ""
         if ":" in k:
-            d = " = " + EXPRS[k.split(":")[1]][1](t)
+            d = " = " + ALLX[k.split(":")[1]][1](t)
         fieldless = k[0] in "UPB"
         if k[0] == "U":
             variants.append(name + d)
@@ -146,6 +151,7 @@ def gen_case(cid, kinds, repr_key, gen_key, names=None):
                ".collect::<Vec<_>>().into_iter()").format(t=t)
     mod = """use super::*;
 #[allow(dead_code)] const K: {t} = 9;
+#[allow(dead_code)] const K16: u16 = 9;
 #[derive(derive_more::TryFrom)]
 #[try_from(repr)]
 {rattrs}
@@ -232,6 +238,12 @@ def run(chk, tier):
             if c is not None:
                 cases.append(c); n += 1
     chk.part("E_names", programs=len(cases) - e0, names="pairs and triples equal up to letter case, raw identifiers, non-ASCII")
+    # Part F: discriminants written in terms of the enum itself (`Self::V0`) or with an inferred cast (`x as _`)
+    f0 = len(cases)
+    for kinds in (["U", "U:selfplus", "U"], ["U", "U:selfneg"], ["U:asinfer", "U"], ["U", "U:asinfer", "F", "U"], ["U:leninfer", "P", "U"], ["U:asinfer", "U:leninfer"]):
+        for r in ("u8", "i8", "i32", "u64"):
+            add(kinds, r, "none")
+    chk.part("F_self_and_inferred", programs=len(cases) - f0, expressions=sorted(EXPRS_X))
     # Part C: generics
     alphaC = ["U", "U:5", "U:shl", "F", "P"]
     c0 = len(cases)
